@@ -44,4 +44,26 @@ theorem opm_keplerian_maneuver_lost :
 theorem man_stop_dated_ok : manWindowBack ⟨1000000, 240000, .stop⟩ = some (760000, 1000000) ∧
     manWindowBack ⟨1000000, 240000, .median⟩ = some (880000, 1120000) := by decide
 
+/-- (open: C13-xml-lagrange-centre-name-glued) the XML writers print the centre of a Lagrange-point frame glued (`EARTHMOONL1`), from
+which the readers rebuild `Earthmoonl1`, not a frame; the KVN writers print `EARTH MOON L1` -/
+theorem xml_lagrange_centre_glued :
+    centerRead (centerWrite kvnCenterPats "EarthMoonL1".toList) = "EarthMoonL1".toList ∧
+    (xmlCenterPats = ["Barycenter"] → centerWrite xmlCenterPats "EarthMoonL1".toList = "EARTHMOONL1".toList ∧
+      centerRead (centerWrite xmlCenterPats "EarthMoonL1".toList) = "Earthmoonl1".toList) := by
+  decide
+
+/-- (open: C13-lagrange-centre-of-multiword-body) `lagrange()` names the centre after the bodies' own names; a body name of two
+words (`Earth Barycenter`) puts a blank inside the centre name, which no CENTER_NAME text can bring back -/
+theorem lagrange_multiword_body_name_lost :
+    centerRead (centerWrite kvnCenterPats "SunEarth BarycenterL2".toList) = "SunEarthBarycenterL2".toList ∧
+    centerRead (centerWrite xmlCenterPats "SunEarth BarycenterL2".toList) ≠ "SunEarth BarycenterL2".toList := by
+  decide
+
+/-- three-word centre of the JPL kernels, both encodings (regression instance for the word split) -/
+theorem solar_system_barycenter_ok :
+    centerWrite kvnCenterPats "SolarSystemBarycenter".toList = "SOLAR SYSTEM BARYCENTER".toList ∧
+    centerRead (centerWrite kvnCenterPats "SolarSystemBarycenter".toList) = "SolarSystemBarycenter".toList ∧
+    centerRead (centerWrite xmlCenterPats "SolarSystemBarycenter".toList) = "SolarSystemBarycenter".toList := by
+  decide
+
 end BeyondVerif.C13W
